@@ -136,6 +136,17 @@ def gcc_accepts_define(value: str) -> bool:
     return _GCC_OK[value]
 
 
+_HAVE_CPP: T.List[bool] = []
+
+
+def have_cpp() -> bool:
+    """a C++ compiler exists, so projects can name two languages in add_*_arguments(language: [...])"""
+    if not _HAVE_CPP:
+        import shutil
+        _HAVE_CPP.append(bool(shutil.which('c++') and shutil.which('g++')))
+    return _HAVE_CPP[0]
+
+
 def make_string(rng: random.Random, cls: str, tier: str, allow_newline: bool) -> str:
     """One hostile string that contains class `cls`."""
     for _ in range(50):
@@ -478,9 +489,53 @@ def build_plan(idx: int, seed: int, tier: str, rsp: bool, newline_pos: T.Optiona
 
     def slot(pos: str, lst: T.List[str], bb: str, ee: str, rewritten: T.Optional[T.List[str]] = None) -> dict:
         return {'pos': pos, 'b': bb, 'e': ee, 'args': (rewritten if rewritten is not None else lst)[1:-1]}
-    common_c = [slot('proj_args', pa, pab, pae), slot('glob_args', ga, gab, gae), slot('opt_c_args', oa, oab, oae)]
-    common_l = [slot('proj_link_args', pla, plab, plae), slot('glob_link_args', gla, glab, glae),
+
+    # project / global (link) arguments are given as a HISTORY of calls: the list of a position is cut into several
+    # add_*_arguments() calls whose `language:` sets overlap (a first call naming both languages, later calls for one
+    # of them or for both, in either order).  Each language must receive exactly the arguments of the calls that named
+    # it, once each, in call order - and nothing given to the other language only.
+    langs_all = ['c', 'cpp'] if have_cpp() else ['c']
+    call_lines: T.Dict[str, T.List[str]] = {}
+    per_lang: T.Dict[str, T.Dict[str, T.List[str]]] = {}
+
+    def call_history(fn: str, pos: str, lst: T.List[str]) -> None:
+        units: T.List[T.List[str]] = []
+        inner = lst[1:-1]
+        i_ = 0
+        while i_ < len(inner):
+            if inner[i_] in ('-D', '-U', '-isystem') and i_ + 1 < len(inner):
+                units.append(inner[i_:i_ + 2])
+                i_ += 2
+            else:
+                units.append(inner[i_:i_ + 1])
+                i_ += 1
+        both = lambda: rng.sample(langs_all, len(langs_all))  # noqa: E731
+        calls: T.List[T.Tuple[T.List[str], T.List[str]]] = []
+        first = [lst[0]] + (units[0] if units else [])
+        calls.append((first, both()))
+        for u in units[1:-1]:
+            lg = both() if rng.random() < 0.4 else [rng.choice(langs_all)]
+            calls.append((list(u), lg))
+        last = (units[-1] if len(units) > 1 else []) + [lst[-1]]
+        calls.append((last, both()))
+        call_lines[fn] = [f"{fn}({mlist(items)}, language: {mlist(lg) if len(lg) > 1 or rng.random() < 0.5 else mstr(lg[0])})"
+                          for items, lg in calls]
+        per_lang[pos] = {lg_: [a for items, lg in calls if lg_ in lg for a in items] for lg_ in langs_all}
+
+    call_history('add_project_arguments', 'proj_args', pa)
+    call_history('add_global_arguments', 'glob_args', ga)
+    call_history('add_project_link_arguments', 'proj_link_args', pla)
+    call_history('add_global_link_arguments', 'glob_link_args', gla)
+
+    def lslot(pos: str, lang: str, bb: str, ee: str) -> dict:
+        return {'pos': pos, 'b': bb, 'e': ee, 'args': per_lang[pos][lang][1:-1], 'lang': lang}
+    common_c = [lslot('proj_args', 'c', pab, pae), lslot('glob_args', 'c', gab, gae), slot('opt_c_args', oa, oab, oae)]
+    common_l = [lslot('proj_link_args', 'c', plab, plae), lslot('glob_link_args', 'c', glab, glae),
                 slot('opt_c_link_args', ola, olab, olae)]
+    if have_cpp():
+        b.compile['x1'] = [lslot('proj_args', 'cpp', pab, pae), lslot('glob_args', 'cpp', gab, gae)]
+        b.link['x1'] = [lslot('proj_link_args', 'cpp', plab, plae), lslot('glob_link_args', 'cpp', glab, glae)]
+        files['main.cpp'] = 'int main() { return 0; }\n'
     dc, dcb, dce = b.compile_args('dep_cargs', nargs)
     dl, dlb, dle = b.compile_args('dep_largs', nargs)
     b.compile['e1'] = common_c + [slot('targs_exe', te, teb, tee, rewrite_target_cargs(te)), slot('dep_cargs', dc, dcb, dce)]
@@ -489,13 +544,16 @@ def build_plan(idx: int, seed: int, tier: str, rsp: bool, newline_pos: T.Optiona
     b.link['e1'] = common_l + [slot('link_args', la, lab, lae), slot('dep_largs', dl, dlb, dle)]
     b.link['e2'] = list(common_l)
 
-    L.append("project('c03p', 'c')")
+    L.append("project('c03p', 'c', 'cpp')" if have_cpp() else "project('c03p', 'c')")
     L.append(f"dump = find_program({mstr(DUMPER)})")
     L.append("@CALIB@")
-    L.append(f"add_project_arguments({mlist(pa)}, language: 'c')")
-    L.append(f"add_global_arguments({mlist(ga)}, language: 'c')")
-    L.append(f"add_project_link_arguments({mlist(pla)}, language: 'c')")
-    L.append(f"add_global_link_arguments({mlist(gla)}, language: 'c')")
+    # the four call histories, interleaved (order within one function kept)
+    queues = [list(v) for v in call_lines.values()]
+    while any(queues):
+        q_ = rng.choice([q for q in queues if q])
+        L.append(q_.pop(0))
+    if have_cpp():
+        L.append("x1 = executable('x1', 'main.cpp')")
     L.append(f"dep1 = declare_dependency(compile_args: {mlist(dc)}, link_args: {mlist(dl)})")
     L.append(f"e1 = executable('e1', 'main.c', c_args: {mlist(te)}, link_args: {mlist(la)}, dependencies: dep1)")
     L.append(f"s1 = static_library('s1', 'lib.c', c_args: {mlist(tl)})")
